@@ -605,13 +605,16 @@ fn decode<'a>(
     let mut section_stack: Vec<BoxedData<'a>> = vec![sections[0].slice_box(0, sections[0].len())];
     // Bytes of the first section after LZ4/Pco decompression (string data borrows from these).
     let mut first_section_bytes: Option<&'a [u8]> = None;
+    // The null map is re-attached once the values are fully decoded, so that operations
+    // following `Nullable` in the codec (ToI64, Add, DictLookup) do not drop it.
+    let mut null_map: Option<Vec<u8>> = None;
     for codec_op in codec.ops() {
         let arg0 = section_stack.first().unwrap();
         let decoded = match codec_op {
             CodecOp::Nullable => {
                 let present = section_stack.pop().unwrap();
-                let mut data = section_stack.pop().unwrap();
-                data.make_nullable(present.cast_ref_u8())
+                null_map = Some(present.cast_ref_u8().to_vec());
+                continue;
             }
             CodecOp::Add(encoding_type, value) => match encoding_type {
                 EncodingType::U8 => Box::new(
@@ -886,5 +889,9 @@ fn decode<'a>(
         section_stack.push(decoded);
     }
 
-    section_stack.pop().unwrap()
+    let mut decoded = section_stack.pop().unwrap();
+    match null_map {
+        Some(present) => decoded.make_nullable(&present),
+        None => decoded,
+    }
 }
